@@ -11,7 +11,9 @@ for s in $ids; do
   prop=${s%%-*}
   git -C $wt checkout -q -- . && git -C $wt clean -fdq
   if ! git -C $wt apply "$PWD/seeded/$s/patch.diff"; then echo "$s: patch does not apply"; miss=$((miss+1)); continue; fi
-  o=$(PGV_REPO=$wt PGV_OUT_DIR=/tmp/pgv-seeded-out ./check $prop --tier ${TIER:-quick} 2>&1); rc=$?
+  # a seeded change may name the tier that catches it (meta.json "tier"); default: quick
+  tier=$(python3 -c "import json,sys; print(json.load(open(sys.argv[1])).get('tier',''))" "$PWD/seeded/$s/meta.json" 2>/dev/null)
+  o=$(PGV_REPO=$wt PGV_OUT_DIR=/tmp/pgv-seeded-out ./check $prop --tier ${tier:-${TIER:-quick}} 2>&1); rc=$?
   sig=$(echo "$o" | grep -E "violation \[" | head -2 | cut -c1-160 | tr '\n' ' ')
   echo "$s rc=$rc $sig"
   [ $rc -ne 1 ] && miss=$((miss+1))
